@@ -126,12 +126,20 @@ class ProgGen(object):
         glob = r.random() < 0.2
         # redefine an existing name or create a new one
         redef_defs = [s for s in redefinable if s.kind == 'def' and s.ptext is not None]
+        # \\def over a parameterless \\newcommand
+        for s_ in redefinable:
+            if s_.kind == 'newcommand' and s_.nargs == 0 and getattr(s_, 'ptext', None) == 'nc':
+                redef_defs.append(s_)
         if redef_defs and r.random() < 0.25:
             # a redefinition keeps the parameter text, so bodies written against the old
             # definition still call it conformingly
             old = r.choice(redef_defs)
             name, rank = old.name, old.rank
-            items, ptext = old.items, old.ptext
+            if old.kind == 'newcommand':
+                items, ptext = [], ''
+                self.features.add('def-over-newcommand')
+            else:
+                items, ptext = old.items, old.ptext
             nparams = len([i for i in items if i[0] in ('u', 'd', 'b')])
             self.features.add('redefine')
         else:
@@ -195,6 +203,8 @@ class ProgGen(object):
         r = self.r
         renew = False
         cands = [s for s in redefinable if s.kind == 'newcommand' and s.ptext == 'nc']
+        # \\renewcommand over a parameterless \\def (the kinds may be mixed as long as calls written against the old meaning stay conforming)
+        cross = [s for s in redefinable if s.kind == 'def' and s.ptext == '' and not s.items and s.depth == 0]
         nargs = r.choice([0, 1, 1, 2, 2, 3, 5, 9])
         opt = None
         if nargs and r.random() < 0.45:
@@ -203,7 +213,13 @@ class ProgGen(object):
             if r.random() < 0.2:
                 opt = ''
                 self.features.add('optional-default-empty')
-        if cands and r.random() < 0.3:
+        if cross and r.random() < 0.15:
+            old = r.choice(cross)
+            name, rank = old.name, old.rank
+            nargs, opt = 0, None
+            renew = True
+            self.features.add('renewcommand-over-def')
+        elif cands and r.random() < 0.3:
             old = r.choice(cands)
             name, rank = old.name, old.rank
             nargs = old.nargs
